@@ -24,7 +24,7 @@ RULE = ('L7: tables of 255..2500 rows alone and followed by a second table; L6: 
         'lists of 1..3 of 4 tables x all ordered struct-name selections from 5 colliding names x all ordered headers of <=3 of 6 values; '
         'L4: Table writer/reader (function and registry; bytes and str columns; meta); L5: 9 unsupported dtypes in 3 positions must raise. '
         'Non-trivial: at least one data row or header pair, or a refusal case. Distinct: distinct case descriptions.')
-ASSUMPTIONS = ['header values carry no leading/trailing blanks (the format separates key and value by blanks and cannot express them)',
+ASSUMPTIONS = ['string cells include inner empty braces (a{}b, a{ }b), a trailing open brace (x{) and a header value with inner braces', 'header values carry no leading/trailing blanks (the format separates key and value by blanks and cannot express them)',
                'cell values come from the alphabets in mc/props/_yanny.py; documented inexpressible texts are not generated',
                'Table entry points are registered by the harness exactly as the module docstring prescribes']
 
